@@ -81,3 +81,39 @@ Example C20_method_chain :
 Proof. vm_compute. eexists. split; [reflexivity|]. split; reflexivity. Qed.
 
 (* evaluator side: call_stack — added by the coordinator *)
+
+From ChaiV Require Import EvalDefs Eval EvalTrace.
+
+(* AST_Node_Impl::eval around a node's own semantics p: an eval_error leaving p gets this node appended to its call stack;
+   every other outcome (value, return/break/continue, other exceptions, fuel) passes unchanged *)
+Theorem C20_wrapper_appends_the_node :
+  forall ev k n p s,
+    run ev k (with_trace n p) s =
+      match run ev k p s with
+      | (RFail (FThrow (EEval r st)), s') => (RFail (FThrow (EEval r (app st [TE (a_kind n) (a_loc n)]))), s')
+      | x => x
+      end.
+Proof. exact with_trace_spec. Qed.
+Print Assumptions C20_wrapper_appends_the_node.
+
+(* every node, every tree, every state, every depth: an eval_error that leaves the evaluation of n has n (its kind and its own
+   start position) as newest entry; applied at each enclosing node in turn, the stack lists the active constructs innermost first *)
+Theorem C20_call_stack_innermost_first :
+  forall c ops fuel n s r st s',
+    eval c ops fuel n s = (RFail (FThrow (EEval r st)), s') ->
+    exists st0, st = app st0 [TE (a_kind n) (a_loc n)].
+Proof. exact eval_error_records_node. Qed.
+Print Assumptions C20_call_stack_innermost_first.
+
+(* an identifier that resolves to nothing (no local, no global, no function): the error is raised at the Id node itself and its only
+   entry is the identifier's own position *)
+Theorem C20_unresolved_identifier_points_at_itself :
+  forall ops fuel n s,
+    a_kind n = KId ->
+    run_prim (PFindLocal (a_text n)) s = (RVal None, s) ->
+    assoc (s_globals s) (a_text n) = None -> assoc (s_funcs s) (a_text n) = None ->
+    existsb (String.eqb (a_text n)) builtin_names = false ->
+    eval (mkcfg false) ops (S fuel) n s =
+      (RFail (FThrow (EEval ("Can not find object: " ++ a_text n) [TE KId (a_loc n)])), s).
+Proof. exact unresolved_id_points_at_itself. Qed.
+Print Assumptions C20_unresolved_identifier_points_at_itself.
